@@ -6,6 +6,7 @@ import (
 	"crypto/sha256"
 	"fmt"
 	"os"
+	"sync/atomic"
 	"time"
 
 	logging "github.com/ipfs/go-log/v2"
@@ -75,6 +76,18 @@ type NodeOpts struct {
 	GenesisTime   time.Time
 	// DBPath: the configured db_path (relative to RootDir); "" leaves the default of the repository's config
 	DBPath string
+	// PrometheusNamespace: when not empty the Manager is built with real Prometheus metrics, the way node/ builds them
+	// with instrumentation.prometheus on (block.PrometheusMetrics(namespace, "chain_id", chainID)), instead of the
+	// no-op metrics. The collectors register on the process-wide default registry: the namespace must be unique
+	// within the process (see UniquePrometheusNamespace).
+	PrometheusNamespace string
+}
+
+var promSeq atomic.Int64
+
+// UniquePrometheusNamespace returns a metrics namespace no other call in this process returned.
+func UniquePrometheusNamespace() string {
+	return fmt.Sprintf("verif_%d_%d", os.Getpid(), promSeq.Add(1))
 }
 
 // Node bundles a real Manager with the doubles it runs against.
@@ -156,8 +169,12 @@ func NewNode(ctx context.Context, o NodeOpts, k Keys, dsp *MemDS, exec coreexecu
 	if o.CustomPayload {
 		mopts.SignaturePayloadProvider = CustomSignaturePayload
 	}
+	metrics := block.NopMetrics()
+	if o.PrometheusNamespace != "" {
+		metrics = block.PrometheusMetrics(o.PrometheusNamespace, "chain_id", o.ChainID)
+	}
 	m, err := block.NewManager(ctx, sg, cfg, gen, n.Store, exec, seq, da, logging.Logger("verif"),
-		n.HStore, n.DStore, n.HB, n.DB, block.NopMetrics(), 1.0, 1.5, mopts)
+		n.HStore, n.DStore, n.HB, n.DB, metrics, 1.0, 1.5, mopts)
 	if err != nil {
 		return nil, err
 	}
